@@ -39,6 +39,9 @@ CONSTANTS
   Runnable,     \* methods whose exchange the peer can complete
   PeerLevels,   \* honest peer's own policy level (both for auth and enc)
   Modes,        \* subset of {"fresh","resumed"}
+  PolicySources,\* subset of {"base","hook"}: E = server takes its policy from its own config, or from
+                \* the per-command hook (ServerConfigForCommand) laid over a weaker base config
+  IntegScope,   \* "all" | "serverFresh": where integrity-only REQUIRED is enumerated
   EstChoices,   \* how a resumed session came about: "Honest" or the establishing peer's deviation
   Deviations,   \* the part of the catalogue to enumerate
   MaxDev,       \* at most this many deviation switches per behaviour ...
@@ -78,7 +81,7 @@ PostDevs == {"PostAuthInClear", "PostAuthDenied"}
 NoEncDevs == {"AnswerEncNo", "NoCommonCipher", "ResumeKeyless", "ReplyWithoutKey"} \cup KeyDevs
 
 VARIABLES
-  cfg,      \* [role, auth, enc, integ, methods, peerLvl, mode, sess, est, estEnc]
+  cfg,      \* [role, auth, enc, integ, methods, peerLvl, mode, sess, est, estEnc, src]
   phase,
   devs,     \* deviation switches the peer has used so far
   denied,   \* the peer (or its honest policy) reported DENIED / SID_NOT_FOUND
@@ -100,6 +103,10 @@ vars == <<cfg, phase, devs, denied, ansAuth, pAuth, pEnc, keyMat, cipherOK, offe
           ran, keyE, postAuth, postDenied, policyAuth, encClaim, outcome>>
 
 EncReq(c) == c.enc = "REQUIRED" \/ c.integ = "REQUIRED"
+\* what E itself takes for its requirement when it installs the key (differs from
+\* EncReq only in a wrong design: the per-command policy's integrity level is lost)
+EncReqE(c) == c.enc = "REQUIRED"
+              \/ (c.integ = "REQUIRED" /\ ~("PerCommandIntegrityDropped" \in Bug /\ c.src = "hook"))
 
 NoSess == [authd |-> FALSE, keyed |-> FALSE]
 Sessions == [authd : BOOLEAN, keyed : BOOLEAN]
@@ -125,8 +132,11 @@ SessionConsistent(c) ==
 Configs ==
   {c \in [role : Roles, auth : AuthLevels, enc : EncLevels, integ : IntegChoices,
           methods : MethodLists, peerLvl : PeerLevels, mode : Modes, sess : Sessions,
-          est : EstChoices, estEnc : EncLevels] :
+          est : EstChoices, estEnc : EncLevels, src : PolicySources] :
      /\ (c.integ = "REQUIRED" => c.enc # "REQUIRED")
+     /\ (c.integ = "REQUIRED" /\ IntegScope = "serverFresh" => (c.role = "server" /\ c.mode = "fresh"))
+     \* only a fresh server handshake consults the per-command hook
+     /\ (c.src = "hook" => (c.role = "server" /\ c.mode = "fresh"))
      /\ (c.mode = "fresh" => (c.sess = NoSess /\ c.est = "Honest" /\ c.estEnc = c.enc))
      /\ (c.mode = "resumed" => SessionConsistent(c))}
 
@@ -314,8 +324,8 @@ ServerSelectRun ==
 KeyStep ==
   /\ phase = "key"
   /\ \/ /\ CanKeyE /\ keyE' = TRUE /\ UNCHANGED encClaim
-     \/ /\ ~EncReq(cfg) /\ keyE' = FALSE /\ UNCHANGED encClaim
-     \/ /\ ~CanKeyE /\ EncReq(cfg) /\ "ContinueWithoutEnc" \in Bug
+     \/ /\ ~EncReqE(cfg) /\ keyE' = FALSE /\ UNCHANGED encClaim
+     \/ /\ ~CanKeyE /\ EncReqE(cfg) /\ "ContinueWithoutEnc" \in Bug
         /\ keyE' = FALSE /\ encClaim' = TRUE
   /\ phase' = IF cfg.role = "client" THEN "p_post" ELSE "s_post"
   /\ UNCHANGED <<cfg, devs, denied, ansAuth, pAuth, pEnc, keyMat, cipherOK, offered, sel, ran,
